@@ -1382,9 +1382,11 @@ def c15_pair_oracle(cases, impl):
                     per[cur] = []
                 elif tag == "ROW" and cur is not None:
                     per[cur].append(r)
+            solo_limited = any(tag == "END" and r.startswith("limit") for tag, r in solo)
             for k, rows in per.items():
-                if rows != solo_rows[:len(rows)] or (len(rows) < len(solo_rows) and not any(tag == "END" and r.startswith("limit") for tag, r in solo)
-                                                       and len(rows) < min(len(solo_rows), c.get("max", 200))):
+                common = min(len(rows), len(solo_rows))
+                # both runs are capped (a program that never ends): compare what both produced
+                if rows[:common] != solo_rows[:common] or (not solo_limited and len(rows) != len(solo_rows) and len(rows) < c.get("max", 200)):
                     yield c, "iterator %s of %d interleaved iterators yields different rows than the same iterator run alone" % (k, c.get("niter", 0))
                     break
         if c["kind"] == "static":
